@@ -11,17 +11,11 @@ ALL = [f"C{i:02d}" for i in range(1, 21)]
 # id -> (category, technique, level text, level note, design ref)
 CLAIMS = {
     "C02": (
-        "model_checking",
-        "explicit-state BFS over call histories of the real Sequence; model-free invariants on every transition",
-        "All histories up to depth 3-5 (per world, see evidence) over a 30-33 op timing alphabet (add x 3 protocols, delay, "
-        "target, align, phase_shift, EOM and DMM ops, failing calls) on 8-10 channel configurations (incl. DMM declared first, two "
-        "locals, and a fall-tail world: several idle slots of lengths around the rise time between a pulse and every consumer of "
-        "its pending fall time, depth 4; two deep-root worlds starting from 9- and 16-call programs inside / after an EOM block; an EOM "
-        "slower than its channel; an SLM mask in Ising mode; a maximum duration below the waits the channel needs) are executed on "
-        "the real Sequence; tiling, clock alignment, minimum durations, prefix stability, reported durations and agreement of the three "
-        "timeline views (schedule, str, sampler) are checked on every transition. Per-channel parameter overrides give a world in which two channels of one basis have clocks 1 and 4 (a phase barrier off the other grid). Worlds with a minimum duration that is not a multiple of the clock (automatic waits at or below the minimum) and with a never-targeted Local channel (no slot at all).",
-        "Bounded depth and alphabet; Pulse.fall_time trusted for the pending-fall-time clause (decided separately by C14).",
-        "DESIGN.md §3 C02",
+        'model_checking',
+        'explicit-state BFS over call histories of the real Sequence; model-free invariants on every transition',
+        'All histories up to depth 3-5 (per world, see evidence) over a 30-33 op timing alphabet (add x 3 protocols, delay, target, align, phase_shift, EOM and DMM ops, failing calls) on 8-10 channel configurations (incl. DMM declared first, two locals, and a fall-tail world: several idle slots of lengths around the rise time between a pulse and every consumer of its pending fall time, depth 4; two deep-root worlds starting from 9- and 16-call programs inside / after an EOM block; an EOM slower than its channel; an SLM mask in Ising mode; a maximum duration below the waits the channel needs) are executed on the real Sequence; tiling, clock alignment, minimum durations, prefix stability, reported durations and agreement of the three timeline views (schedule, str, sampler) are checked on every transition. Per-channel parameter overrides give a world in which two channels of one basis have clocks 1 and 4 (a phase barrier off the other grid). Worlds with a minimum duration that is not a multiple of the clock (automatic waits at or below the minimum) and with a never-targeted Local channel (no slot at all). EOM buffer times given by the device (custom_buffer_time) that sit off the clock grid or below the minimum duration, played as detuned idle pulses.',
+        'Bounded depth and alphabet; Pulse.fall_time trusted for the pending-fall-time clause (decided separately by C14).',
+        'DESIGN.md §3 C02',
     ),
     "C03": (
         "model_checking",
@@ -39,22 +33,11 @@ CLAIMS = {
         "DESIGN.md §3 C03, Appendix A",
     ),
     "C07": (
-        "model_checking",
-        "explicit-state BFS over call histories with an independent phase accumulator + RefSched phase-reference equality; "
-        "exhaustive Ramsey grid on the emulator",
-        "All histories up to depth 3-5 over 14-21 op alphabets (shifts of 1, -0.5, 7 > 2pi, 2pi, 0 on atom subsets and bases, "
-        "pulses with post-phase-shifts of either sign on global/local channels, retargets, EOM pulses) on 6 worlds (two channels "
-        "on one basis, two bases, DMM configured before the first channel, two globals, and the mirror image with the local "
-        "channel starting on the other atom, 3 atoms and integer qubit ids out of register order; EOM calls incl. a drift-corrected "
-        "change of setpoint): per transition every (basis, atom) "
-        "reference must change by exactly the op's increment (mod 2pi) and no other reference may move; every new pulse carries "
-        "programmed phase + reference and starts after the latest shift of its targets. Ramsey pairs (two pi/2 pulses around a "
-        "shift phi) are emulated for 29 phi values x 5 channel kinds x {phase_shift, post_phase_shift}, and for 10 phi values x 3 "
-        "channel kinds with something in between (plain delay, zero-amplitude hold of 16 / 100 / 400 ns) x both protocols of the "
-        "second pulse x phase-jump time {none, 200 ns} (1250 emulations): P = cos^2(phi/2) +- 1e-4. ArbitraryPhase pulses (constant and ramp phase) are in the alphabet; the accumulator takes the post-phase-shift from the op as written, not from the built Pulse.",
-        "EOM drift corrections are compared with the documented rule (RefSched); their physical correctness is C15's clause. "
-        "Bounded depth/alphabet; phi grid.",
-        "DESIGN.md §3 C07",
+        'model_checking',
+        'explicit-state BFS over call histories with an independent phase accumulator + RefSched phase-reference equality; exhaustive Ramsey grid on the emulator',
+        "All histories up to depth 3-5 over 14-21 op alphabets (shifts of 1, -0.5, 7 > 2pi, 2pi, 0 on atom subsets and bases, pulses with post-phase-shifts of either sign on global/local channels, retargets, EOM pulses) on 6 worlds (two channels on one basis, two bases, DMM configured before the first channel, two globals, and the mirror image with the local channel starting on the other atom, 3 atoms and integer qubit ids out of register order; EOM calls incl. a drift-corrected change of setpoint): per transition every (basis, atom) reference must change by exactly the op's increment (mod 2pi) and no other reference may move; every new pulse carries programmed phase + reference and starts after the latest shift of its targets. Ramsey pairs (two pi/2 pulses around a shift phi) are emulated for 29 phi values x 5 channel kinds x {phase_shift, post_phase_shift}, and for 10 phi values x 3 channel kinds with something in between (plain delay, zero-amplitude hold of 16 / 100 / 400 ns) x both protocols of the second pulse x phase-jump time {none, 200 ns} (1250 emulations): P = cos^2(phi/2) +- 1e-4. ArbitraryPhase pulses (constant and ramp phase) are in the alphabet; the accumulator takes the post-phase-shift from the op as written, not from the built Pulse. A world in which the second channel of a basis is declared mid-sequence, after phase shifts were accumulated on that basis.",
+        "EOM drift corrections are compared with the documented rule (RefSched); their physical correctness is C15's clause. Bounded depth/alphabet; phi grid.",
+        'DESIGN.md §3 C07',
     ),
     "C10": (
         "model_checking",
@@ -72,25 +55,11 @@ CLAIMS = {
         "DESIGN.md §3 C10",
     ),
     "C09": (
-        "fault_enumeration",
-        "explicit-state BFS over valid call histories x exhaustive invalid-call and read-only menus at every reachable state; "
-        "full-snapshot equality before/after; differential rebuild oracles",
-        "Every state reachable by <= 2-4 valid calls (16-op core incl. EOM, DMM, variables, measure; XY world and a fresh sequence "
-        "whose mode is still undetermined separately) is "
-        "hit with each of 78 invalid calls (93 with the menus of the XY world and of a fresh, channel-less sequence) (one per failure cause and operation: durations, limits, targets, channels, names, "
-        "modes incl. mode refusals of calls that carry a variable, protocols, over-long sequence via each op, foreign/unknown "
-        "variables, calls after measure) and 14 read-only "
-        "operations (str, sample +- modulation, draw with every flag, durations, phase refs, delay estimates, both serialisers, "
-        "observers, build); a refused or read-only call must leave the full snapshot (timeline, EOM blocks, phase references, "
-        "mode flags, call log) identical; every state must equal its build() copy, its switch_register(same register) copy, its switch_device(renamed "
-        "identical device) copy and, up to depth 2-3, its abstract-repr round trip; every copy then receives calls of every kind "
-        "(variable declaration, pulses, delays, phase shifts, align, channel declaration, measure) and the original must keep its "
-        "full snapshot; finally the caller edits every list object it passed as an argument (targets, SLM qubits) and the record "
-        "of calls and its replay must not follow. Attributes of the sequence that the snapshot does not know by name are carried "
-        "generically, so a cache written by a read-only call is a state change. A copy that raises is named after the first prefix of the history after which it raises. Worlds: a channel-less sequence on non-reusable channels (DMM id taken by a pending SLM mask), an SLM mask on a DMM with stricter duration limits than the Global channel. Containers passed positionally and by keyword (target(qubits=[...]), config_slm_mask(qubits=[...])) and edited by the caller afterwards.",
-        "Known findings (non-atomic multi-step operations under max_sequence_duration, declare_channel with a bad initial "
-        "target) are listed in known_findings.json. Bounded depth; fault menu as listed in mc/props/c09.py.",
-        "DESIGN.md §3 C09",
+        'fault_enumeration',
+        'explicit-state BFS over valid call histories x exhaustive invalid-call and read-only menus at every reachable state; full-snapshot equality before/after; differential rebuild oracles',
+        'Every state reachable by <= 2-4 valid calls (16-op core incl. EOM, DMM, variables, measure; XY world and a fresh sequence whose mode is still undetermined separately) is hit with each of 78 invalid calls (93 with the menus of the XY world and of a fresh, channel-less sequence) (one per failure cause and operation: durations, limits, targets, channels, names, modes incl. mode refusals of calls that carry a variable, protocols, over-long sequence via each op, foreign/unknown variables, calls after measure) and 14 read-only operations (str, sample +- modulation, draw with every flag, durations, phase refs, delay estimates, both serialisers, observers, build); a refused or read-only call must leave the full snapshot (timeline, EOM blocks, phase references, mode flags, call log) identical; every state must equal its build() copy, its switch_register(same register) copy, its switch_device(renamed identical device) copy and, up to depth 2-3, its abstract-repr round trip; every copy then receives calls of every kind (variable declaration, pulses, delays, phase shifts, align, channel declaration, measure) and the original must keep its full snapshot; finally the caller edits every list object it passed as an argument (targets, SLM qubits) and the record of calls and its replay must not follow. Attributes of the sequence that the snapshot does not know by name are carried generically, so a cache written by a read-only call is a state change. A copy that raises is named after the first prefix of the history after which it raises. Worlds: a channel-less sequence on non-reusable channels (DMM id taken by a pending SLM mask), an SLM mask on a DMM with stricter duration limits than the Global channel. Containers passed positionally and by keyword (target(qubits=[...]), config_slm_mask(qubits=[...])) and edited by the caller afterwards. A world in which every id collection is handed over as a dict view (keys()), which is a valid Collection that cannot be copied.',
+        'Known findings (non-atomic multi-step operations under max_sequence_duration, declare_channel with a bad initial target) are listed in known_findings.json. Bounded depth; fault menu as listed in mc/props/c09.py.',
+        'DESIGN.md §3 C09',
     ),
     "C13": (
         "model_checking",
@@ -110,37 +79,18 @@ CLAIMS = {
         "DESIGN.md §3 C13",
     ),
     "C15": (
-        "model_checking",
-        "explicit-state BFS over EOM call histories with RefSched equality and block monitors; exhaustive grid over EOM "
-        "configurations x setpoints against an independent light-shift computation; exhaustive drift-corrected histories on "
-        "the emulator",
-        "(a) all histories up to depth 3-5 over a 13-16 op alphabet (enable / modify / EOM pulse / delay / disable, each with and "
-        "without drift correction, on empty and non-empty channels, custom buffer 40 vs derived) on 3 worlds: pulses square at "
-        "the latest setpoint, idle slots at the off-detuning, buffers and fall waits equal to RefSched; (b) 24 EOM "
-        "configurations {limiting beam} x {controlled beams} x {multiple control} x {shift coefficients} x 5-10 amplitudes "
-        "(below/at/above the limiting Rabi frequency) x 3 detunings x 21 optima + exact midpoints + the options themselves: "
-        "option set equals an independent computation, choice is the closest option, stored choice reproduces itself; (c) every "
-        "valid drift-corrected EOM history up to depth 3-4 is emulated and its final Rydberg population equals that of the same "
-        "pulses at zero off-detuning (5e-5). One world gives the EOM a custom buffer time shorter than the channel's own fall time. Every state with an open EOM block is sampled with an extended duration: the idle tail sits at the block's off-detuning whatever the last slot. The emulated histories include a setpoint with a large off-detuning (-31.8 rad/us) and an ordinary pulse with an off-grid fall time before the block (16 ns clock).",
-        "Fall times trusted (C14). Populations compared at the final time only; single atom.",
-        "DESIGN.md §3 C15",
+        'model_checking',
+        'explicit-state BFS over EOM call histories with RefSched equality and block monitors; exhaustive grid over EOM configurations x setpoints against an independent light-shift computation; exhaustive drift-corrected histories on the emulator',
+        "(a) all histories up to depth 3-5 over a 13-16 op alphabet (enable / modify / EOM pulse / delay / disable, each with and without drift correction, on empty and non-empty channels, custom buffer 40 vs derived) on 3 worlds: pulses square at the latest setpoint, idle slots at the off-detuning, buffers and fall waits equal to RefSched; (b) 24 EOM configurations {limiting beam} x {controlled beams} x {multiple control} x {shift coefficients} x 5-10 amplitudes (below/at/above the limiting Rabi frequency) x 3 detunings x 21 optima + exact midpoints + the options themselves: option set equals an independent computation, choice is the closest option, stored choice reproduces itself; (c) every valid drift-corrected EOM history up to depth 3-4 is emulated and its final Rydberg population equals that of the same pulses at zero off-detuning (5e-5). One world gives the EOM a custom buffer time shorter than the channel's own fall time. Every state with an open EOM block is sampled with an extended duration: the idle tail sits at the block's off-detuning whatever the last slot. The emulated histories include a setpoint with a large off-detuning (-31.8 rad/us) and an ordinary pulse with an off-grid fall time before the block (16 ns clock). EOM alphabets with a strong off-detuning setpoint (-31.8 rad/us) so that idle time, buffers and drift corrections differ visibly from zero.",
+        'Fall times trusted (C14). Populations compared at the final time only; single atom.',
+        'DESIGN.md §3 C15',
     ),
     "C06": (
-        "exploration",
-        "explicit-state BFS over building histories; every reached state is sampled and compared nanosecond by nanosecond "
-        "with an independent renderer (RefRender) of the timeline snapshot",
-        "All states reachable within depth 3-4 over 8-15 op rendering alphabets (pulses of distinct shape / phase / detuning on "
-        "every channel, retargets, multi-target local channel, EOM blocks left open, DMM with a weight map, XY with an SLM mask "
-        "and two microwave channels, two globals on one basis, two locals, DMM declared first, automatic waits inside EOM blocks) "
-        "on 12 worlds (incl. integer / string ids out of register order, a user-built zero-amplitude hold pulse with its own phase, an "
-        "Ising SLM mask, two detuning maps on one DMM id, a detuning map built from its own coordinate array): per channel array lengths, amplitude, "
-        "detuning and phase over each pulse; per atom and basis the complex drive and weighted detuning from both "
-        "to_nested_dict layouts; extension by 1 and 37 ns pads with zeros / last phase / off-detuning. Idle time inside an EOM block is "
-        "rendered from the block (mode), not from the kind of slot the implementation recorded. SequenceSamples.extend_duration to the longest channel, +1 and +37 ns next to the per-channel extension. States in which a declared channel has no slot at all (Local channel never targeted) are rendered too; the sampled channel names must be the declared ones. After an accepted target(Q, ch) the channel addresses exactly Q as written (also a subset of the previous targets).",
-        "Known findings: channels merged into one nested-dict entry are combined by adding amplitudes and phases (two globals "
-        "on a basis; global+local with all_local=True); a merge model (sum of amplitudes and carried phases per entry) scopes these "
-        "findings: a deviation that is not that sum has its own fingerprint. Phase between pulses is not compared.",
-        "DESIGN.md §3 C06",
+        'exploration',
+        'explicit-state BFS over building histories; every reached state is sampled and compared nanosecond by nanosecond with an independent renderer (RefRender) of the timeline snapshot',
+        'All states reachable within depth 3-4 over 8-15 op rendering alphabets (pulses of distinct shape / phase / detuning on every channel, retargets, multi-target local channel, EOM blocks left open, DMM with a weight map, XY with an SLM mask and two microwave channels, two globals on one basis, two locals, DMM declared first, automatic waits inside EOM blocks) on 12 worlds (incl. integer / string ids out of register order, a user-built zero-amplitude hold pulse with its own phase, an Ising SLM mask, two detuning maps on one DMM id, a detuning map built from its own coordinate array): per channel array lengths, amplitude, detuning and phase over each pulse; per atom and basis the complex drive and weighted detuning from both to_nested_dict layouts; extension by 1 and 37 ns pads with zeros / last phase / off-detuning. Idle time inside an EOM block is rendered from the block (mode), not from the kind of slot the implementation recorded. SequenceSamples.extend_duration to the longest channel, +1 and +37 ns next to the per-channel extension. States in which a declared channel has no slot at all (Local channel never targeted) are rendered too; the sampled channel names must be the declared ones. After an accepted target(Q, ch) the channel addresses exactly Q as written (also a subset of the previous targets). A world that begins with an EOM block of length zero; a monitor outside the renderer: idle time appended while no EOM block is open carries no amplitude and no detuning.',
+        'Known findings: channels merged into one nested-dict entry are combined by adding amplitudes and phases (two globals on a basis; global+local with all_local=True); a merge model (sum of amplitudes and carried phases per entry) scopes these findings: a deviation that is not that sum has its own fingerprint. Phase between pulses is not compared.',
+        'DESIGN.md §3 C06',
     ),
     "C05": (
         "exploration",
@@ -175,25 +125,11 @@ CLAIMS = {
         "DESIGN.md §3 C01",
     ),
     "C16": (
-        "exploration",
-        "exhaustive grid (full Cartesian products) over waveform classes x durations x parameter values with oracles "
-        "written from the class docstrings",
-        "1.7k (quick) / 3.6k (thorough) cases, each running 10-200 assertions: every waveform class x durations "
-        "{1,2,3,4,5,10,11,100,101} x parameters {-2,-1e-3,0,1e-3,1,20} (all pairs for ramps), interpolated waveforms with 2-4 "
-        "points, explicit times incl. near-coincident ones and both interpolators, composite and custom waveforms: sample "
-        "count and finiteness, documented values, window area / sign / symmetry, change_duration to two other durations, "
-        "scaling by {-2,-1,0.5,1,3}, division incl. by zero, negation, equality vs sample-wise closeness on both sides of the "
-        "numpy.isclose tolerance (one sample / all / positive / negative / alternating samples moved by 0.4 and 3 tolerances; "
-        "waveforms of both signs whose integral cancels), every index and slice "
-        "for durations <= 5; from_max_val for area x max_val x beta of both signs (never exceeds, exact area, one ns shorter "
-        "would exceed for windows > 16 ns), and max_val placed just above / below the peak of the d-ns window for EVERY duration "
-        "d = 17..259 (thorough ..699); pulses with phases {-7,-pi,-1e-12,0,1,2pi,7,100}; invalid pulses refused; "
-        "ArbitraryPhase reproduces 6 phase-waveform kinds x 6 durations at every sample through phase_modulation. Object "
-        "histories: every sequence of <= 3 (thorough 4) steps over 10 uses / caller-side edits (constructor buffers, arrays returned "
-        "by samples / modulated_samples / pulse waveforms) on 6 waveform objects vs a pristine object, compared on the object itself "
-        "and on what is derived from it afterwards (change_duration, scaling, negation) (6.7k histories).",
+        'exploration',
+        'exhaustive grid (full Cartesian products) over waveform classes x durations x parameter values with oracles written from the class docstrings',
+        '1.7k (quick) / 3.6k (thorough) cases, each running 10-200 assertions: every waveform class x durations {1,2,3,4,5,10,11,100,101} x parameters {-2,-1e-3,0,1e-3,1,20} (all pairs for ramps), interpolated waveforms with 2-4 points, explicit times incl. near-coincident ones and both interpolators, composite and custom waveforms: sample count and finiteness, documented values, window area / sign / symmetry, change_duration to two other durations, scaling by {-2,-1,0.5,1,3}, division incl. by zero, negation, equality vs sample-wise closeness on both sides of the numpy.isclose tolerance (one sample / all / positive / negative / alternating samples moved by 0.4 and 3 tolerances; waveforms of both signs whose integral cancels), every index and slice for durations <= 5; from_max_val for area x max_val x beta of both signs (never exceeds, exact area, one ns shorter would exceed for windows > 16 ns), and max_val placed just above / below the peak of the d-ns window for EVERY duration d = 17..259 (thorough ..699); pulses with phases {-7,-pi,-1e-12,0,1,2pi,7,100}; invalid pulses refused; ArbitraryPhase reproduces 6 phase-waveform kinds x 6 durations at every sample through phase_modulation. Object histories: every sequence of <= 3 (thorough 4) steps over 10 uses / caller-side edits (constructor buffers, arrays returned by samples / modulated_samples / pulse waveforms) on 6 waveform objects vs a pristine object, compared on the object itself and on what is derived from it afterwards (change_duration, scaling, negation) (6.7k histories). All-zero samples / values through every waveform class.',
         "Grid values only; interpolated waveforms whose points coincide after rounding are a don't-care class.",
-        "DESIGN.md §3 C16",
+        'DESIGN.md §3 C16',
     ),
     "C19": (
         "exploration",
@@ -214,149 +150,60 @@ CLAIMS = {
         "DESIGN.md §3 C19",
     ),
     "C12": (
-        "exploration",
-        "exhaustive boundary grid of devices x registers / layouts with an exact rational-arithmetic oracle",
-        "3461 cases: 16 devices {dimensions} x {max atoms} x {min distance} x {max radius} x 213 registers (one pair at "
-        "d-1e-3, d-5e-7, d, d+1e-3, 0, 1e-7, 2e-6 along x and along a 3-4-5 direction with the violating pair at every index "
-        "position, atoms at radius R-1e-3, R, R+1e-3, counts max / max+1, 3D registers, every atom order) through "
-        "validate_register and Sequence(); expected accept / refuse and the exact offending pairs / atoms from Fractions; "
-        "layout-based registers for fillings {0.5,1,0.4,0.45,0.57,0.35,0.29,0.58,0.07,0.7} x trap bounds x trap and atom counts "
-        "around the limit (incl. exactly the maximum number of traps and products that are integers only in exact arithmetic); the atom-number limit on registers that come from "
-        "a valid layout; automatic layouts on a physical device "
-        "and max_connectivity registers must be accepted by their device (spacings within 1e-3 .. 5e-7 of the minimum distance on both sides); device construction (+ specs / docs rendering) for "
-        "each optional parameter None / valid / boundary / invalid.",
+        'exploration',
+        'exhaustive boundary grid of devices x registers / layouts with an exact rational-arithmetic oracle',
+        '3461 cases: 16 devices {dimensions} x {max atoms} x {min distance} x {max radius} x 213 registers (one pair at d-1e-3, d-5e-7, d, d+1e-3, 0, 1e-7, 2e-6 along x and along a 3-4-5 direction with the violating pair at every index position, atoms at radius R-1e-3, R, R+1e-3, counts max / max+1, 3D registers, every atom order) through validate_register and Sequence(); expected accept / refuse and the exact offending pairs / atoms from Fractions; layout-based registers for fillings {0.5,1,0.4,0.45,0.57,0.35,0.29,0.58,0.07,0.7} x trap bounds x trap and atom counts around the limit (incl. exactly the maximum number of traps and products that are integers only in exact arithmetic); the atom-number limit on registers that come from a valid layout; automatic layouts on a physical device and max_connectivity registers must be accepted by their device (spacings within 1e-3 .. 5e-7 of the minimum distance on both sides); device construction (+ specs / docs rendering) for each optional parameter None / valid / boundary / invalid. Registers that already carry a foreign layout (too few / too many traps, beyond the radius, too dense, over-filled) through with_automatic_layout.',
         "Don't-care bands: distances within 1e-6 below the minimum, radii within 1e-14 relative of the maximum.",
-        "DESIGN.md §3 C12",
+        'DESIGN.md §3 C12',
     ),
     "C14": (
-        "exploration",
-        "exhaustive grids for the filter axioms and the fall-time clause (judged by an independent non-circular Gaussian "
-        "convolution) plus a modulated-sampling monitor on every state of a call-history BFS",
-        "Filter axioms for bandwidth {2,8,30,100} MHz x input length {1,2,3,16,100,401} x keep_ends x EOM x 9 input families: "
-        "output length = input + 2 rise times, finite, integral preserved (1e-9), no negative output from non-negative input, "
-        "no overshoot, pairwise linearity, tone at the bandwidth halved (through apply_modulation and, as steady-state gain, "
-        "through Channel.modulate itself on the standard and the EOM path incl. bandwidths whose rise time 480/bw is not a whole "
-        "number of ns); output lengths are checked before any arithmetic and a library call that raises on a valid waveform is a "
-        "violation. Fall-time clause for bandwidth {2,4,8,30} (+4 more in "
-        "thorough) x duration {16,52,100,401} x amplitude {0.1,1,20} x 11 amplitude and 6 detuning shapes (incl. composites "
-        "ending in a short zero / low hold and sign-changing ramps) and EOM bandwidths 20/40: the true output beyond duration + "
-        "Pulse.fall_time stays below max(0.01, 0.6 % of peak). Sequences: modulated sampling succeeds whenever plain sampling "
-        "does and every array ends at the channel duration including fall time, on every state of a depth 2-3 BFS (empty "
-        "channels, channels without bandwidth, open EOM blocks, DMM, EOM slower than / as fast as its channel). Channel bandwidths 240 / 300 / 479 MHz (just below the library ceiling); an exception raised while sampling an accepted sequence is a violation. Fall-time grid with BOTH waveforms of a pulse shaped (6 x 6 shapes x sign) and EOM-mode pulses of weak / zero amplitude and large detuning on 5 / 20 / 40 MHz EOMs. Sequence-level modulated VALUES: equal to the channel's own filter applied to what was scheduled (everywhere without EOM blocks, away from every block otherwise). The modulated amplitude of a channel carries the area of what was scheduled (EOM at least as fast as the channel); channels with a second EOM block after a closed one and blocks split by a new setpoint.",
-        "Reference filter = Gaussian impulse response of the documented transfer function on a zero-padded input; bandwidths "
-        "where int() truncation of the rise time loses > 3 % (37, 44, 49 ... 100 MHz) exceed the 0.6 % clause by design margin "
-        "and are not in the grid (DESIGN.md Appendix B #13).",
-        "DESIGN.md §3 C14",
+        'exploration',
+        'exhaustive grids for the filter axioms and the fall-time clause (judged by an independent non-circular Gaussian convolution) plus a modulated-sampling monitor on every state of a call-history BFS',
+        "Filter axioms for bandwidth {2,8,30,100} MHz x input length {1,2,3,16,100,401} x keep_ends x EOM x 9 input families: output length = input + 2 rise times, finite, integral preserved (1e-9), no negative output from non-negative input, no overshoot, pairwise linearity, tone at the bandwidth halved (through apply_modulation and, as steady-state gain, through Channel.modulate itself on the standard and the EOM path incl. bandwidths whose rise time 480/bw is not a whole number of ns); output lengths are checked before any arithmetic and a library call that raises on a valid waveform is a violation. Fall-time clause for bandwidth {2,4,8,30} (+4 more in thorough) x duration {16,52,100,401} x amplitude {0.1,1,20} x 11 amplitude and 6 detuning shapes (incl. composites ending in a short zero / low hold and sign-changing ramps) and EOM bandwidths 20/40: the true output beyond duration + Pulse.fall_time stays below max(0.01, 0.6 % of peak). Sequences: modulated sampling succeeds whenever plain sampling does and every array ends at the channel duration including fall time, on every state of a depth 2-3 BFS (empty channels, channels without bandwidth, open EOM blocks, DMM, EOM slower than / as fast as its channel). Channel bandwidths 240 / 300 / 479 MHz (just below the library ceiling); an exception raised while sampling an accepted sequence is a violation. Fall-time grid with BOTH waveforms of a pulse shaped (6 x 6 shapes x sign) and EOM-mode pulses of weak / zero amplitude and large detuning on 5 / 20 / 40 MHz EOMs. Sequence-level modulated VALUES: equal to the channel's own filter applied to what was scheduled (everywhere without EOM blocks, away from every block otherwise). The modulated amplitude of a channel carries the area of what was scheduled (EOM at least as fast as the channel); channels with a second EOM block after a closed one and blocks split by a new setpoint. The length of the modulated arrays is compared with the model's own account of the channel (end of the last instruction or of the last pulse's fall time, whichever is later), not only with the library's get_duration(include_fall_time=True). A world that begins with a zero-length EOM block.",
+        'Reference filter = Gaussian impulse response of the documented transfer function on a zero-padded input; bandwidths where int() truncation of the rise time loses > 3 % (37, 44, 49 ... 100 MHz) exceed the 0.6 % clause by design margin and are not in the grid (DESIGN.md Appendix B #13).',
+        'DESIGN.md §3 C14',
     ),
     "C08": (
-        "exploration",
-        "exhaustive program x deviation enumeration (ProgX): skeleton programs with every subset of numeric argument positions "
-        "replaced by variable expressions; template.build(values) vs direct construction compared on canonical snapshots",
-        "3.8k cases: 7 skeleton programs (all waveform classes, delays, phase shifts, EOM with drift correction, DMM, index "
-        "targeting, XY; 6-12 numeric positions each) x every subset of positions turned into variable expressions (14 kinds: "
-        "scalar, array item, 2v, v+1, -v, v/2, v**2, abs, sqrt, sin, floor, ceil, round, nested; whole-array variables for "
-        "interpolation points), every kind at every single position and every kind pair on two positions; each template is built "
-        "for assignments A, B in the orders A,B,A and B,A,A, after a failed build, and compared with the same calls issued "
-        "directly on evaluated values (second pass: values handed over as caller-owned arrays edited in place); the template's "
-        "full snapshot (incl. stored calls) must be unchanged by every build; every subset template is also built on a "
-        "MappableRegister resolved at build time (any prefix of the program concrete); every ordered pair of 17 expression kinds / 5 "
-        "waveform classes over the SAME variable and constant as two arguments of one template. "
-        "Mappable registers: 3 unsorted declared-id orders x every injective mapping of 1-3 ids onto 4 traps x every mapping "
-        "insertion order x every index: declared order, trap positions, index-based targeting and equality with direct "
-        "construction on the concrete register. Whole-array variables read through a caller-owned index list which the caller reverses after writing the template. Rounding at exact ties (round half to even) and array literals as operands (scalar x array, array x array, array + array). All operators and functions of parametrized objects (exp, log, log2, cos, tan, tanh, floor-division and modulo both ways, powers, rounding to a decimal), from_max_val constructors, literal boundary values in the calls that follow the first variable (delay 0, zero phase shift, retarget to the current target). Target-less phase shifts on templates whose build places fewer qubits than declared.",
-        "Assignments restricted to those the direct construction accepts; phase-reference entries of unmapped qubits are "
-        "ignored (unobservable).",
-        "DESIGN.md §3 C08",
+        'exploration',
+        'exhaustive program x deviation enumeration (ProgX): skeleton programs with every subset of numeric argument positions replaced by variable expressions; template.build(values) vs direct construction compared on canonical snapshots',
+        "3.8k cases: 7 skeleton programs (all waveform classes, delays, phase shifts, EOM with drift correction, DMM, index targeting, XY; 6-12 numeric positions each) x every subset of positions turned into variable expressions (14 kinds: scalar, array item, 2v, v+1, -v, v/2, v**2, abs, sqrt, sin, floor, ceil, round, nested; whole-array variables for interpolation points), every kind at every single position and every kind pair on two positions; each template is built for assignments A, B in the orders A,B,A and B,A,A, after a failed build, and compared with the same calls issued directly on evaluated values (second pass: values handed over as caller-owned arrays edited in place); the template's full snapshot (incl. stored calls) must be unchanged by every build; every subset template is also built on a MappableRegister resolved at build time (any prefix of the program concrete); every ordered pair of 17 expression kinds / 5 waveform classes over the SAME variable and constant as two arguments of one template. Mappable registers: 3 unsorted declared-id orders x every injective mapping of 1-3 ids onto 4 traps x every mapping insertion order x every index: declared order, trap positions, index-based targeting and equality with direct construction on the concrete register. Whole-array variables read through a caller-owned index list which the caller reverses after writing the template. Rounding at exact ties (round half to even) and array literals as operands (scalar x array, array x array, array + array). All operators and functions of parametrized objects (exp, log, log2, cos, tan, tanh, floor-division and modulo both ways, powers, rounding to a decimal), from_max_val constructors, literal boundary values in the calls that follow the first variable (delay 0, zero phase shift, retarget to the current target). Target-less phase shifts on templates whose build places fewer qubits than declared. Non-integral index values (x.5, x.9999999, 0.8999999999999999, negative, out of range) supplied through a variable, an item, a product, a quotient and a sum to target_index / phase_shift_index on concrete and mappable registers: the build resolves them as the direct call does.",
+        'Assignments restricted to those the direct construction accepts; phase-reference entries of unmapped qubits are ignored (unobservable).',
+        'DESIGN.md §3 C08',
     ),
     "C04": (
-        "exploration",
-        "exhaustive program x deviation enumeration (ProgX) through both codecs with a differential oracle on canonical "
-        "snapshots and an independently compiled schema validator",
-        "1.2k (quick) / ~2k (thorough) programs (incl. a zero-length delay that still waits for the fall time): 5 program families covering every building operation x argument-style "
-        "deviations (positional / keyword / omitted / explicit default; each alone and pairs) x registers {2D, 3D} x {plain, from a "
-        "layout, mappable} x devices {inline virtual with EOM+DMM, MockDevice by name, custom physical with / without EOM} x parametrized variants "
-        "(each numeric position alone and all together as variable expressions) x qubit ids {strings, integers 0..2, integers "
-        "out of register order: decoded == the program written with str(id)}, plus the shared-operand expression pairs of C08. For each: document valid under the published "
-        "schema (own validator) , decoding succeeds, device and register equal, decoded snapshot equal (or, when parametrized / "
-        "mappable, builds for two assignments equal), encode-decode-encode is a fixpoint, measurement and variables equal, and "
-        "encoding leaves the original's full snapshot (incl. call log) unchanged; abstract and legacy codecs. Custom devices that keep a built-in device's name with other specifications (physical and virtual) must come back with their own specifications. C08's skeleton templates (every expression kind at every position, incl. whole-array arguments combined with array literals) go through both codecs and must build to the same sequences. Every case runs in a freshly forked process; decoding histories (two documents with the same variable names but different sizes / types decoded one after the other) are single cases; parametrized programs x every single and pair of call-style deviations incl. keyword-only constructors; export with default values / default traps; detuning maps on every register kind. Declared channels of the still parametrized decoded sequence (derived from stored calls) equal the template's; built sequences are exported and decoded as well; SLM mask on the device's second DMM.",
-        "Channels compared as a name-keyed map. Known finding: numpy.round expressions are not exportable.",
-        "DESIGN.md §3 C04",
+        'exploration',
+        'exhaustive program x deviation enumeration (ProgX) through both codecs with a differential oracle on canonical snapshots and an independently compiled schema validator',
+        "1.2k (quick) / ~2k (thorough) programs (incl. a zero-length delay that still waits for the fall time): 5 program families covering every building operation x argument-style deviations (positional / keyword / omitted / explicit default; each alone and pairs) x registers {2D, 3D} x {plain, from a layout, mappable} x devices {inline virtual with EOM+DMM, MockDevice by name, custom physical with / without EOM} x parametrized variants (each numeric position alone and all together as variable expressions) x qubit ids {strings, integers 0..2, integers out of register order: decoded == the program written with str(id)}, plus the shared-operand expression pairs of C08. For each: document valid under the published schema (own validator) , decoding succeeds, device and register equal, decoded snapshot equal (or, when parametrized / mappable, builds for two assignments equal), encode-decode-encode is a fixpoint, measurement and variables equal, and encoding leaves the original's full snapshot (incl. call log) unchanged; abstract and legacy codecs. Custom devices that keep a built-in device's name with other specifications (physical and virtual) must come back with their own specifications. C08's skeleton templates (every expression kind at every position, incl. whole-array arguments combined with array literals) go through both codecs and must build to the same sequences. Every case runs in a freshly forked process; decoding histories (two documents with the same variable names but different sizes / types decoded one after the other) are single cases; parametrized programs x every single and pair of call-style deviations incl. keyword-only constructors; export with default values / default traps; detuning maps on every register kind. Declared channels of the still parametrized decoded sequence (derived from stored calls) equal the template's; built sequences are exported and decoded as well; SLM mask on the device's second DMM. Detuning maps whose traps are given in descending order (given order differs from layout order).",
+        'Channels compared as a name-keyed map. Known finding: numpy.round expressions are not exportable.',
+        'DESIGN.md §3 C04',
     ),
     "C18": (
-        "exploration",
-        "exhaustive program x device-pair enumeration (ProgX) with a differential snapshot oracle (strict) and the C01/C02 "
-        "predicates on the new device (non-strict)",
-        "161 programs (every history of <= 2 ops over a 12-op alphabet incl. EOM with drift correction, DMM, retarget, align, "
-        "phase changes; plus 4 long ones) and 15 auxiliary programs (EOM set points next to the detuning limit; the same DMM id configured twice before / after parametrization; SLM mask with default / positional / keyword DMM id before "
-        "and after the first channel or pulse in Ising, XY and undetermined mode, magnetic field, measurement, variables) x 81 "
-        "ordered device pairs (base <-> 28 single-parameter variants incl. a renamed identical device, to which every switch must "
-        "succeed and change nothing; of clock, min "
-        "duration, bandwidth, phase-jump time, retarget interval, fixed retarget time, EOM bandwidth / buffer / beams / absence, "
-        "amplitude / detuning / duration limits, reusability, Rydberg level, max sequence duration, DMM bottoms; base -> 25 "
-        "two-parameter variants; thorough: all 300 pairs of variants) x strict in {True, False} = 24.6k switches: strict either "
-        "raises or returns an identical timeline / EOM blocks / phase references; non-strict either raises or satisfies every "
-        "limit of the new device with a well-formed timeline; the original is never modified; switch_register to an equal, a "
-        "moved and a re-ordered register keeps the timeline; to a MappableRegister with the same ids it is refused or keeps every "
-        "stored instruction and builds to the original timeline; parametrized programs are compared after building both sides. Programs with two Global channels (Raman and Rydberg) aligned with phase shifts across the switch.",
-        "Consecutive plain delays are merged and derived DMM channel names normalised before comparing strict switches. Known "
-        "findings: strict ignores min_duration, the SLM-mask DMM's bottom detuning and the off-detuning of an open, still empty EOM block. "
-        "Idle periods at one off-detuning are merged, only the current phase reference is compared.",
-        "DESIGN.md §3 C18",
+        'exploration',
+        'exhaustive program x device-pair enumeration (ProgX) with a differential snapshot oracle (strict) and the C01/C02 predicates on the new device (non-strict)',
+        '161 programs (every history of <= 2 ops over a 12-op alphabet incl. EOM with drift correction, DMM, retarget, align, phase changes; plus 4 long ones) and 15 auxiliary programs (EOM set points next to the detuning limit; the same DMM id configured twice before / after parametrization; SLM mask with default / positional / keyword DMM id before and after the first channel or pulse in Ising, XY and undetermined mode, magnetic field, measurement, variables) x 81 ordered device pairs (base <-> 28 single-parameter variants incl. a renamed identical device, to which every switch must succeed and change nothing; of clock, min duration, bandwidth, phase-jump time, retarget interval, fixed retarget time, EOM bandwidth / buffer / beams / absence, amplitude / detuning / duration limits, reusability, Rydberg level, max sequence duration, DMM bottoms; base -> 25 two-parameter variants; thorough: all 300 pairs of variants) x strict in {True, False} = 24.6k switches: strict either raises or returns an identical timeline / EOM blocks / phase references; non-strict either raises or satisfies every limit of the new device with a well-formed timeline; the original is never modified; switch_register to an equal, a moved and a re-ordered register keeps the timeline; to a MappableRegister with the same ids it is refused or keeps every stored instruction and builds to the original timeline; parametrized programs are compared after building both sides. Programs with two Global channels (Raman and Rydberg) aligned with phase shifts across the switch. Device variants with a fixed retarget time off the clock grid (with and without a minimum retarget interval).',
+        "Consecutive plain delays are merged and derived DMM channel names normalised before comparing strict switches. Known findings: strict ignores min_duration, the SLM-mask DMM's bottom detuning and the off-detuning of an open, still empty EOM block. Idle periods at one off-detuning are merged, only the current phase reference is compared.",
+        'DESIGN.md §3 C18',
     ),
     "C17": (
-        "exploration",
-        "exhaustive grids per class (optional fields default / non-default, every subset of noise types) with == and deep "
-        "field-by-field comparison after the JSON round trip, plus every construction/decoding order of three instances per "
-        "class with deep snapshots of the earlier ones",
-        "704 (quick) cases: 190+ noise models (every subset of the 7 noise types through each activating parameter variant, "
-        "leakage) - active types exactly those set, abstract round trip equal, NoiseModel -> SimConfig -> NoiseModel preserves "
-        "types and every relevant parameter; ~400 virtual devices (12 optional fields: all singles, pairs, all) x 5 channel sets "
-        "(EOM with every optional field non-default, EOM controlled beams in every selection and order, DMM, default noise model, custom "
-        "ids, channels / DMMs listed in reverse order) + 6 physical variants; registers "
-        "2D/3D x 6 atom orders x 3 id sets x with/without layout, layouts, detuning maps with traps in all 24 orders through a "
-        "sequence; 135 emulation configs (observable sets x evaluation times x initial states x noise models) incl. operators "
-        "with complex coefficients; aliasing for StateRepr / NoiseModel / VirtualDevice / Register in all 6 orders. Registers, layouts and device layouts with negative-zero / tiny negative coordinates. Physical devices whose calibrated layouts share a slug, have no slug, or list one layout twice. Effective-noise rates of exactly 0; every noise type inside emulation configurations. Boolean options of a configuration given as numpy booleans / 0 / 1.",
-        "Fields excluded from == by the dataclass (short_description) are not compared; layout subclasses compared by traps+slug.",
-        "DESIGN.md §3 C17",
+        'exploration',
+        'exhaustive grids per class (optional fields default / non-default, every subset of noise types) with == and deep field-by-field comparison after the JSON round trip, plus every construction/decoding order of three instances per class with deep snapshots of the earlier ones',
+        '704 (quick) cases: 190+ noise models (every subset of the 7 noise types through each activating parameter variant, leakage) - active types exactly those set, abstract round trip equal, NoiseModel -> SimConfig -> NoiseModel preserves types and every relevant parameter; ~400 virtual devices (12 optional fields: all singles, pairs, all) x 5 channel sets (EOM with every optional field non-default, EOM controlled beams in every selection and order, DMM, default noise model, custom ids, channels / DMMs listed in reverse order) + 6 physical variants; registers 2D/3D x 6 atom orders x 3 id sets x with/without layout, layouts, detuning maps with traps in all 24 orders through a sequence; 135 emulation configs (observable sets x evaluation times x initial states x noise models) incl. operators with complex coefficients; aliasing for StateRepr / NoiseModel / VirtualDevice / Register in all 6 orders. Registers, layouts and device layouts with negative-zero / tiny negative coordinates. Physical devices whose calibrated layouts share a slug, have no slug, or list one layout twice. Effective-noise rates of exactly 0; every noise type inside emulation configurations. Boolean options of a configuration given as numpy booleans / 0 / 1. Results whose evaluation times are not short decimals (k/3, k/7, full grids) through to_abstract_repr / from_abstract_repr.',
+        'Fields excluded from == by the dataclass (short_description) are not compared; layout subclasses compared by traps+slug.',
+        'DESIGN.md §3 C17',
     ),
     "C11": (
-        "exploration",
-        "exhaustive sweeps on the real emulators: every integer duration, programs x noise x evaluation-time settings, every "
-        "basis-state tuple, and every tape of numpy.random answers (owned RNG)",
-        "67k cases (quick): every duration 4..1500 ns (thorough 12000) of a resonant pulse - legacy norm, analytic Rabi "
-        "population, V2 backend returns and stores the same final state; 10 programs (incl. an idle period before a short pulse) x 7 noise configurations x 4 evaluation-time "
-        "settings x sampling rates {1, 0.5, (0.1)} - every stored state normalised / unit-trace / Hermitian / positive, times "
-        "ascending, V2 == legacy at equal times, zero drive keeps the state; every basis-state tuple of 1-4 atoms in each of 8 "
-        "eigenbases x measurement bases as ket and density matrix -> documented bitstring through the legacy result object "
-        "and the V2 state, and uniform / weighted superpositions and mixtures over all basis states -> documented distribution; every tape of RNG answers (interval interiors, both end points, rate-/rate/rate+) for 1-2 shots on 4 "
-        "distributions x 4 detection-error settings against a reference function of the tape (V2 state and legacy results "
-        "object); state-preparation errors: every pattern of badly prepared atoms over 2-3 runs; the legacy emulator as a "
-        "stateful object: every history of <= 3 (thorough 4) configuration calls (set_initial_state x 3, set_config x 3, "
-        "add_config x 3, reset_config, set_evaluation_times x 3, run, observers) on one emulator vs a fresh emulator configured with the net "
-        "settings of a reference model (3.8k histories); reduced states get_state(reduce_to_basis=...) of three-level runs vs the "
-        "projection of the full state. Resonant drives made of several unequal constant segments and idle periods: final population == sin^2(area/2) on the three emulator entry points. The measured (pseudo-density) state of the legacy results follows the same convention: <reads-as-1 projector> per atom for every basis incl. the leakage bases x every basis state x detection-error rates. Legacy sampled results (NoisyResults): deterministic corners (eta in {0, 1}, vanishing amplitude spread, detection rates in {0, 1}) and scripted state-preparation patterns; evaluation-time sets with times closer than one sample to the start / end / one another on both APIs; the older QutipBackend and device default noise models as further entry points. With every sample stored, the state returned for a stored time is the state of that time (known finding: first match within one sample).",
-        "Solver tolerances as listed in the evidence; Rabi value required within the range spanned by effective durations "
-        "[T-1, T]; large-shot statistics are not decided.",
-        "DESIGN.md §3 C11",
+        'exploration',
+        'exhaustive sweeps on the real emulators: every integer duration, programs x noise x evaluation-time settings, every basis-state tuple, and every tape of numpy.random answers (owned RNG)',
+        '67k cases (quick): every duration 4..1500 ns (thorough 12000) of a resonant pulse - legacy norm, analytic Rabi population, V2 backend returns and stores the same final state; 10 programs (incl. an idle period before a short pulse) x 7 noise configurations x 4 evaluation-time settings x sampling rates {1, 0.5, (0.1)} - every stored state normalised / unit-trace / Hermitian / positive, times ascending, V2 == legacy at equal times, zero drive keeps the state; every basis-state tuple of 1-4 atoms in each of 8 eigenbases x measurement bases as ket and density matrix -> documented bitstring through the legacy result object and the V2 state, and uniform / weighted superpositions and mixtures over all basis states -> documented distribution; every tape of RNG answers (interval interiors, both end points, rate-/rate/rate+) for 1-2 shots on 4 distributions x 4 detection-error settings against a reference function of the tape (V2 state and legacy results object); state-preparation errors: every pattern of badly prepared atoms over 2-3 runs; the legacy emulator as a stateful object: every history of <= 3 (thorough 4) configuration calls (set_initial_state x 3, set_config x 3, add_config x 3, reset_config, set_evaluation_times x 3, run, observers) on one emulator vs a fresh emulator configured with the net settings of a reference model (3.8k histories); reduced states get_state(reduce_to_basis=...) of three-level runs vs the projection of the full state. Resonant drives made of several unequal constant segments and idle periods: final population == sin^2(area/2) on the three emulator entry points. The measured (pseudo-density) state of the legacy results follows the same convention: <reads-as-1 projector> per atom for every basis incl. the leakage bases x every basis state x detection-error rates. Legacy sampled results (NoisyResults): deterministic corners (eta in {0, 1}, vanishing amplitude spread, detection rates in {0, 1}) and scripted state-preparation patterns; evaluation-time sets with times closer than one sample to the start / end / one another on both APIs; the older QutipBackend and device default noise models as further entry points. With every sample stored, the state returned for a stored time is the state of that time (known finding: first match within one sample). User-supplied initial states in every accepted form (array, Qobj, QutipState through QutipBackendV2) x overall factors (1, 2, 0.25, 3j) x supports with nothing driven: the emulated state is the normalised labelled one.',
+        'Solver tolerances as listed in the evidence; Rabi value required within the range spanned by effective durations [T-1, T]; large-shot statistics are not decided.',
+        'DESIGN.md §3 C11',
     ),
     "C20": (
-        "exploration",
-        "exhaustive grids of states x Hamiltonians / operator representations x observables against numpy trace "
-        "definitions; end-to-end V2 runs over evaluation-time configurations; BitStrings under enumerated RNG tapes",
-        "22.9k cases (quick): a 9-member state family (basis states, uniform, signed/complex, entangled, 1/4-3/4 mixture, "
-        "maximally mixed, diagonal) as ket and density matrix x 6 eigenstate sets (2, 3, 4 levels) x 1-3 qudits x 3 "
-        "Hamiltonians: Occupation, CorrelationMatrix, Energy, EnergySecondMoment, EnergyVariance, Fidelity / overlap against every "
-        "member given as ket and as density matrix (incl. a mixture with complex off-diagonal elements), Expectation of a non-Hermitian operator, operator +, scalar*, @ and apply_to == matrix algebra; 6 "
-        "operator-representation shapes and 4 amplitude sets per (levels, qudits) == explicit Kronecker products, probabilities "
-        "and basis-state indexing; end-to-end runs over per-observable time lists (unsorted, near-duplicate) x default times x "
-        "noise: ascending unique times, retrieval by observable and tag, stored values == definitions on the stored state and "
-        "noiseless Hamiltonian; BitStrings under every tape of a 6-value menu per draw x detection-error settings; every sequence "
-        "duration 16..329 ns (thorough ..1499) x 6 evaluation-time lists not starting at 0: exactly one stored value per requested "
-        "time; the Results store itself: every subset (<= 4) of a 9-point time grid with neighbours closer than 1e-5 relative, every "
-        "value retrievable by exactly its own time, by observable and by tag. Operator representations in which several single-qudit operators share projector keys but not coefficients (X / Y / Z / identity written out) vs an explicit Kronecker construction. End-to-end runs repeated with output modulation (emulated duration longer than the programmed one): stored energies equal Tr[rho(t) H(t)^k] with H at the emulated time.",
-        "Known finding: observables with own evaluation times are also stored at the default times.",
-        "DESIGN.md §3 C20",
+        'exploration',
+        'exhaustive grids of states x Hamiltonians / operator representations x observables against numpy trace definitions; end-to-end V2 runs over evaluation-time configurations; BitStrings under enumerated RNG tapes',
+        '22.9k cases (quick): a 9-member state family (basis states, uniform, signed/complex, entangled, 1/4-3/4 mixture, maximally mixed, diagonal) as ket and density matrix x 6 eigenstate sets (2, 3, 4 levels) x 1-3 qudits x 3 Hamiltonians: Occupation, CorrelationMatrix, Energy, EnergySecondMoment, EnergyVariance, Fidelity / overlap against every member given as ket and as density matrix (incl. a mixture with complex off-diagonal elements), Expectation of a non-Hermitian operator, operator +, scalar*, @ and apply_to == matrix algebra; 6 operator-representation shapes and 4 amplitude sets per (levels, qudits) == explicit Kronecker products, probabilities and basis-state indexing; end-to-end runs over per-observable time lists (unsorted, near-duplicate) x default times x noise: ascending unique times, retrieval by observable and tag, stored values == definitions on the stored state and noiseless Hamiltonian; BitStrings under every tape of a 6-value menu per draw x detection-error settings; every sequence duration 16..329 ns (thorough ..1499) x 6 evaluation-time lists not starting at 0: exactly one stored value per requested time; the Results store itself: every subset (<= 4) of a 9-point time grid with neighbours closer than 1e-5 relative, every value retrievable by exactly its own time, by observable and by tag. Operator representations in which several single-qudit operators share projector keys but not coefficients (X / Y / Z / identity written out) vs an explicit Kronecker construction. End-to-end runs repeated with output modulation (emulated duration longer than the programmed one): stored energies equal Tr[rho(t) H(t)^k] with H at the emulated time. Tag clashes between observables of different classes (tag suffixes that make two tags coincide).',
+        'Known finding: observables with own evaluation times are also stored at the default times.',
+        'DESIGN.md §3 C20',
     ),
 }
 
